@@ -106,6 +106,8 @@ def check_scalar_cmps(P, ctx):
         if not P.types[T]['unit'].startswith('src/'):
             continue
         fn = P.fn(fname)
+        if fname in ('Array_Cmp', 'List_Cmp', 'Tuple_Cmp', 'Tree_Cmp', 'Table_Cmp'):
+            continue      # element-wise comparisons are judged by evaluation against the lexicographic order (container-cmp)
         g = P.cfg(fn)
         ctx.fn(fn)
         N = util.Norm(P, fn, expand_locals=True, keep={'c_int', 'c_float', 'c_str', 'cmp', 'cast', 'get', 'iter_init', 'iter_next', 'len'})
@@ -130,7 +132,7 @@ def check_scalar_cmps(P, ctx):
                         ['return: %s' % g.describe(bad[0])])
         else:
             ctx.proved(rule, key, site(fn), 'every returned value is a literal -1/0/1, a C three-way comparison of (self, obj), or a sign expression over the two values (%s)' % sorted(set(kinds)))
-    ctx.floor(rule, 12)
+    ctx.floor(rule, 7)
 
 
 def check_sign_expr(P, fn, c):
@@ -257,7 +259,108 @@ def decision_rows(P, fname):
     return (frozenset(rows), frozenset(cmps), frozenset(advances)), None
 
 
+def eval_container_cmp(P, fname, is_map):
+    """Evaluate an element-wise container comparison on abstract sequences: own elements A1..Ap, the other's B1..Bq
+    (p, q in 0..2), every outcome of the element comparisons from {-5, 0, 7} (cmp need not return -1/0/1), with exact C
+    semantics for the conditions (cint).  The result must be the lexicographic three-way comparison, as -1/0/1.
+    Returns (number of scenarios, first mismatch or None, unsupported reason or None)."""
+    from . import cint
+    import itertools
+    fn = P.fn(fname)
+    TERM = 0
+    n_eval = 0
+    for p in range(3):
+        for q in range(3):
+            m = min(p, q)
+            results = [(-5, 0, 7)] * (m * (2 if is_map else 1))
+            for combo in itertools.product(*results) if results else [()]:
+                kc = combo[:m]
+                vc = combo[m:] if is_map else ()
+                # expected
+                exp = None
+                for i in range(m):
+                    if kc[i] != 0:
+                        exp = -1 if kc[i] < 0 else 1
+                        break
+                    if is_map and vc[i] != 0:
+                        exp = -1 if vc[i] < 0 else 1
+                        break
+                if exp is None:
+                    exp = 0 if p == q else (-1 if p < q else 1)
+
+                def A(i):
+                    return 100 + i if 1 <= i <= p else TERM
+
+                def Bt(j):
+                    return 200 + j if 1 <= j <= q else TERM
+
+                def call(nm, e, it, kc=kc, vc=vc, p=p, q=q):
+                    args = [it.ev(a) for a in e[2]]
+                    first = ir.top_nocast(it.N.canon(e[2][0])) if e[2] else None
+                    if nm == 'len' and first == ('param', 1):
+                        return q
+                    if (nm == 'len' or nm.endswith('_Len')) and first == ('param', 0):
+                        return p
+                    if nm == 'iter_init' and first == ('param', 1):
+                        return Bt(1)
+                    if nm == 'iter_next' and first == ('param', 1):
+                        return Bt(args[1] - 200 + 1) if args[1] > 200 else TERM
+                    if nm.endswith('_Iter_Init') and first == ('param', 0):
+                        return A(1)
+                    if nm.endswith('_Iter_Next') and first == ('param', 0):
+                        return A(args[1] - 100 + 1) if 100 < args[1] < 200 else TERM
+                    if nm in ('Table_Get', 'Tree_Get') and first == ('param', 0) and 100 < args[1] < 200:
+                        return 300 + (args[1] - 100)
+                    if nm == 'get' and first == ('param', 1) and 200 < args[1] < 300:
+                        return 400 + (args[1] - 200)
+                    if nm == 'cmp':
+                        x, y = args
+                        for (lo, hi, tab) in ((100, 200, kc), (300, 400, vc)):
+                            if lo < x < lo + 100 and hi < y < hi + 100:
+                                i, j = x - lo, y - hi
+                                if i == j and i - 1 < len(tab):
+                                    return tab[i - 1]
+                                raise cint.NoEval('elements at different positions are compared')
+                            if hi < x < hi + 100 and lo < y < lo + 100:
+                                i, j = y - lo, x - hi
+                                if i == j and i - 1 < len(tab):
+                                    return -tab[i - 1]
+                                raise cint.NoEval('elements at different positions are compared')
+                        raise cint.NoEval('cmp of something that is not an element pair')
+                    raise cint.NoEval('call %s' % nm)
+                atoms = {('global', 'Terminal'): TERM, ('param', 0): 1, ('param', 1): 2, ('arrow', ('param', 0), 'nitems'): p}
+                for i in range(0, p + 2):
+                    atoms[('idx', ('arrow', ('param', 0), 'items'), ('int', i))] = A(i + 1)
+                it = cint.CInt(P, fn, atoms=atoms, call=call, N=util.Norm(P, fn, expand_locals=True, inline=False))
+                r = it.run([1, 2])
+                n_eval += 1
+                if r[0] == 'stuck':
+                    return n_eval, None, '%s at %s' % (r[1], P.cfg(fn).describe(r[2]))
+                got = r[1] if r[0] == 'ret' else r[0]
+                if got != exp:
+                    return n_eval, ('own sequence of %d, other of %d, element comparisons %s%s: returns %s, the lexicographic order gives %s' % (
+                        p, q, list(kc), (' / values %s' % list(vc)) if is_map else '', got, exp)), None
+    return n_eval, None, None
+
+
 def check_container_cmps(P, ctx):
+    rule = 'C09.container-cmp'
+    for fname, is_map in (('Array_Cmp', False), ('List_Cmp', False), ('Tuple_Cmp', False), ('Tree_Cmp', True), ('Table_Cmp', True)):
+        fn = P.fn(fname)
+        ctx.fn(fn)
+        n, bad, unsup = eval_container_cmp(P, fname, is_map)
+        ctx.stats['paths'] += n
+        if unsup:
+            ctx.undecided(rule, fname, site(fn), 'the comparison leaves the evaluated fragment: ' + unsup)
+            continue
+        ctx.check(bad is None, rule, fname + ':lexicographic', site(fn),
+                  'the %s comparison is the lexicographic three-way comparison of the two element sequences%s, returned as -1/0/1, for element '
+                  'comparisons of any magnitude (%d scenarios: lengths 0..2, each element comparison negative / zero / positive)' % (
+                      'map' if is_map else 'sequence', ' (key, then value)' if is_map else '', n), [bad] if bad else None)
+    ctx.floor(rule, 5)
+
+
+def check_container_cmps_old(P, ctx):
     rule = 'C09.container-cmp'
     groups = {'sequence': ['Array_Cmp', 'List_Cmp', 'Tuple_Cmp'], 'map': ['Tree_Cmp', 'Table_Cmp']}
     for gname, fns in groups.items():
